@@ -75,3 +75,25 @@ Print diag_pf_hist.
 (* balances must be answered in every state of chain and pool *)
 Definition pf_stale := Eval vm_compute in failing (fun c : Z * Z * bool => negb (snd c)) cases_stale.
 Print pf_stale.
+
+(* concurrency group, from first principles: the answer to a query that ran while the chain
+   grew from lo to hi operations is the first-principles view of ONE of those states *)
+Fixpoint conc_chains (c : chain) (steps : list (hop * pool)) : list (chain * pool) :=
+  match steps with
+  | [] => []
+  | (hop, p) :: r => let c' := match hop with HBlock b => c ++ [b] | _ => c end in (c', p) :: conc_chains c' r
+  end.
+Definition exists_chain (states : list (chain * pool)) (lo hi : Z) (test : chain -> pool -> bool) : bool :=
+  existsb (fun k => match nth_error states (Z.to_nat (k - 1)) with Some (c, p) => test c p | None => false end)
+          (zrange (Z.max 1 lo) (Z.to_nat (hi - Z.max 1 lo + 1))).
+Definition conc_q_spec (states : list (chain * pool)) (q : Z * Z * cq) : bool :=
+  let '(lo, hi, c) := q in
+  match c with
+  | CQBal addrs r => exists_chain states lo hi (fun ch p => negb (pool_stale ch p) && bal_ok ch p addrs r)
+                     || (match r with inl _ => exists_chain states lo hi (fun ch p => pool_stale ch p) | inr _ => false end)
+  | CQTx kind addrs rows => exists_chain states lo hi (fun ch p => eqb_list eqb_row (spec_txns ch p kind addrs) rows)
+  end.
+Definition prop_conc (c : conc_case) : bool :=
+  let states := conc_chains [] (fst c) in forallb (conc_q_spec states) (snd c).
+Definition pf_conc := Eval vm_compute in failing prop_conc cases_conc.
+Print pf_conc.
